@@ -1,1 +1,65 @@
+"""Further property drivers (registered into checks.REGISTRY)."""
+from __future__ import annotations
+import json, os, random
+from common import Env, Machinery, SEED
+from pipeline import extract_conf, mc, calls_from_dump, execute, validate, trace_lines, tokens_of
+from report import Report
+import checks as K
+
 REGISTRY = {}
+
+
+def reg(fn):
+    REGISTRY[fn.__name__[6:]] = fn
+    return fn
+
+
+def _no_seed(calls):
+    return [c for c in calls if c.get('op') != 'seed']
+
+
+def core_family(rep, env, conf, family, tier, what):
+    calls = K.spec_to_code(rep, env, conf, 'MC_Core', 'MC_Core_%s_%s.cfg' % (family, tier), what, transform=_no_seed)
+    K.code_to_spec(rep, env, conf, calls, what + ' executed on the implementation', tag=family)
+    return calls
+
+
+@reg
+def check_C02(tier):
+    rep = Report('C02', tier)
+    env = Env()
+    conf = extract_conf(env)
+    calls = core_family(rep, env, conf, 'forms', tier, 'C02 family: every naturally typed string (product of value sets) x 10+ constructors')
+    rep.exhaustive = True
+    rep.guard(len([t for t in rep.cover if t.startswith('forms:')]) >= 15 or not calls, 'fewer than 15 types exercised')
+    rep.assumptions = ['query round trip only for values without whitespace / URL metacharacters (qsafe tokens)',
+                       'theorems checked by TLC on the spec: Canonical, DictFirstIsNatural, DictOrderIrrelevant, UriRoundTrip, QueryRoundTrip']
+    return rep.finish()
+
+
+@reg
+def check_C03(tier):
+    rep = Report('C03', tier)
+    env = Env()
+    conf = extract_conf(env)
+    calls = core_family(rep, env, conf, 'nav', tier, 'C03 family: every typed string x 6 constructors + untyped inputs')
+    rep.exhaustive = True
+    rep.guard(any(t.endswith(':untyped') for t in rep.cover) or not calls, 'no untyped navigation exercised')
+    rep.guard(len([t for t in rep.cover if t.startswith('nav:')]) >= 8 or not calls, 'not every constructor exercised')
+    rep.assumptions = ['theorems checked by TLC on the spec: PrefixClosed, ParentLaws']
+    return rep.finish()
+
+
+@reg
+def check_C04(tier):
+    rep = Report('C04', tier)
+    env = Env()
+    conf = extract_conf(env)
+    c1 = core_family(rep, env, conf, 'query', tier, 'C04 family: typed Sids x query overlays (trailing ? and get_with(query=))')
+    c2 = core_family(rep, env, conf, 'getwith', tier, 'C04 family: typed Sids x keyword overlays incl. None')
+    rep.exhaustive = True
+    need = ['NoType', 'OneType', 'ManyKeepsOld', 'ManySearchFirst']
+    for b in need:
+        rep.guard(any(t.endswith(':' + b) for t in rep.cover) or not c1, 'decision-table row %s never exercised' % b)
+    rep.assumptions = ['theorems checked by TLC on the spec: AllOrNothing, OptionalNeverAdds, GetWithExact']
+    return rep.finish()
